@@ -84,6 +84,27 @@ def recipe_weights(ctx):
                                   "c * unweighted" if rc.kind == "mean" else "unweighted", why)
             elif r0[0] != ru[0]:
                 ctx.violation(f"{rc.name}: a 0-d weight array raises {r0[1]}", desc, "a value", r0[1])
+            # mask weights: one constant c where a case counts and NaN where it does not. As a pointwise multiplier this is
+            # c times (mean-type) / the same as (ratio-type) the unweighted score of the inputs with those cases blanked
+            if wd and w.size > 1:
+                cm = rng.choice([1.0, 1.0, 2.0, 0.5])
+                mv = np.full(w.shape, cm)
+                for _ in range(rng.randint(1, max(1, w.size // 2))):
+                    mv.flat[rng.randrange(mv.size)] = np.nan
+                wm = w.copy(data=mv)
+                xs_b = [xs[0].where(wm.notnull()).transpose(*xs[0].dims)] + list(xs[1:])
+                km = dict(kw0)
+                rb = core.call_impl(rc.call, xs_b, **km)
+                rm = call(wm)
+                if rc.name == "rmse" and rb[0] == "ok":
+                    rb = ("ok", rb[1] ** 2)
+                if rb[0] == "ok" and rm[0] == "ok":
+                    ok, why = scorelib.same_value(rm[1], rb[1] * cm if rc.kind == "mean" else rb[1], tol=1e-9)
+                    if not ok:
+                        ctx.violation(f"{rc.name}: mask weights ({cm} / NaN) do not give {'%s times ' % cm if rc.kind == 'mean' else ''}the unweighted score of the inputs "
+                                      f"with the NaN-weighted cases blanked: {why}", dict(desc, mask_weights=gens.da_repr(wm)), "c * unweighted on the kept cases", why)
+                elif rm[0] != "ok" and rb[0] == "ok":
+                    ctx.violation(f"{rc.name}: mask weights ({cm} / NaN) raise {rm[1]}", dict(desc, mask_weights=gens.da_repr(wm)), "a value", rm[1])
             if rc.kind == "mean" and rc.dims_kw:
                 # "before averaging": the aggregated score is the NaN-skipping mean of the weighted pointwise scores
                 pw_w = call(w, {"preserve_dims": "all"})
